@@ -220,7 +220,7 @@ def _by_path(ctx, prog):
                    f"meters/consecutive: accept test is {fmt(cond)}",
                    key="C10.3:path:consecutive")
             # accumulator: path = acc + |p_i - p_prev| ; reset to 0 on accept
-            cp = [v for k, v in r.env.items()
+            cp = [v for k, v in r.env_all.items()
                   if v.op == "loopout" and v.args[1] == lid and
                   k not in (name,) and path is not None and
                   any(x.op == "loopvar" and x.args[0] == k
@@ -250,7 +250,7 @@ def _by_path(ctx, prog):
                 path.args[0] == "Add" and any(
                     is_call_to(x, "numpy.linalg.norm") for x in
                     path.args[2].walk())
-            prev = [v for k, v in r.env.items() if v.op == "loopout" and
+            prev = [v for k, v in r.env_all.items() if v.op == "loopout" and
                     v.args[1] == lid and v.args[3].op == "elem"]
             okp = okp and len(prev) == 1 and prev[0].args[3].args[0] is POSES
             whyp = "step term not recognised"
@@ -288,9 +288,14 @@ def _by_path(ctx, prog):
     e = apps[0]
     lid = e.loops[-1]
     loop = [x for x in r.of_kind("loop") if x.data["lid"] == lid][0]
-    i = T("elem", loop.data["iter"], lid)
-    pair = e.data["args"][0]
-    cmps = comparisons(_strip_prefix(e.live, loop.live, lid))
+    from ..lib import index_form, linear, push_index
+    i = index_form(T("elem", loop.data["iter"], lid))
+    if is_call_to(loop.data["iter"], "builtins.enumerate"):
+        i = T("index", lid)
+    pair = index_form(e.data["args"][0])
+    cmps = [(push_index(index_form(a)), r_, push_index(index_form(b_)))
+            for a, r_, b_ in comparisons(_strip_prefix(e.live, loop.live,
+                                                       lid))]
     ok3 = len(cmps) == 1 and cmps[0][1] == "LtE" and cmps[0][2] is TOL and \
         is_call_to(cmps[0][0], "numpy.abs", "builtins.abs")
     ctx.ob("C10.3", e, ok3,
@@ -298,37 +303,64 @@ def _by_path(ctx, prog):
            if ok3 else f"meters/all-pairs accept test: "
                        f"{[(fmt(a), r_, fmt(b)) for a, r_, b in cmps]}",
            key="C10.3:path:all-pairs")
-    ok5 = False
+    # j = (i + 1) + argmin_k | D[i+1+k] - D[i] - delta |, and the tested
+    # value is that minimum — decided on linear normal forms, so the order of
+    # the subtractions and named intermediate arrays do not matter
+    ok5 = None
+    why5 = "form not recognised"
+    off = {i: 1, 1: 1}
     if pair.op == "tuple" and len(pair.args) == 2 and pair.args[0] is i:
-        j = pair.args[1]
-        off = T("binop", "Add", i, const(1))
-        if j.op == "binop" and j.args[0] == "Add" and off in (j.args[1],
-                                                              j.args[2]):
-            cand = j.args[1] if j.args[2] is off else j.args[2]
-            am = [x for x in cand.walk() if is_call_to(x, "numpy.argmin")]
-            if len(am) == 1 and is_call_to(am[0].args[1][0], "numpy.abs"):
-                d = am[0].args[1][0].args[1][0]
-                if d.op == "binop" and d.args[0] == "Sub" and \
-                        d.args[2] is DELTA:
-                    dfh = d.args[1]
-                    if dfh.op == "binop" and dfh.args[0] == "Sub":
-                        a, b = dfh.args[1], dfh.args[2]
-                        ok5 = a.op == "sub" and b.op == "sub" and \
-                            a.args[0] is b.args[0] and b.args[1] is i and \
-                            a.args[1] is T("slice", off, tm.NONE, tm.NONE) \
-                            and is_call_to(a.args[0], "evo.core.geometry."
-                                           "accumulated_distances")
+        lj = linear(pair.args[1])
+        cands = [k for k in (lj or {}) if k != 1 and k is not i]
+        if lj is not None and len(cands) == 1 and lj.get(cands[0]) == 1:
+            cand = cands[0]
+            rest = {k: v for k, v in lj.items() if k is not cand}
+            am = [x for x in cand.walk() if is_call_to(x, "numpy.argmin",
+                                                       ".argmin")]
+            if len(am) == 1 and (am[0].args[1] or
+                                 tm.method_recv(am[0]) is not None):
+                arr = am[0].args[1][0] if am[0].args[1] else \
+                    tm.method_recv(am[0])
+                if is_call_to(arr, "numpy.abs", "builtins.abs",
+                              "numpy.absolute", "numpy.fabs"):
+                    le = linear(arr.args[1][0])
+                    slices = [k for k in (le or {}) if k != 1 and
+                              k.op == "sub" and k.args[1].op == "slice"]
+                    if le is not None and len(slices) == 1:
+                        sl = slices[0]
+                        D = sl.args[0]
+                        lo = sl.args[1].args[0]
+                        want = {sl: 1, tm.sub(D, i): -1, DELTA: -1}
+                        acc = is_call_to(D, "evo.core.geometry."
+                                            "accumulated_distances")
+                        open_end = sl.args[1].args[1] is tm.NONE and \
+                            sl.args[1].args[2] is tm.NONE
+                        lo_lin = linear(lo) if lo is not tm.NONE else {}
+                        ok5 = acc and open_end and le == want and \
+                            lo_lin == off and rest == off
+                        why5 = (f"search over {fmt(sl)[:60]}, differences "
+                                f"{ {fmt(k)[:30] if k != 1 else 1: v for k, v in le.items()} }"
+                                f", index offset {rest}")
                         if ok5 and ok3:
-                            # tested value = dfh[candidate] - delta
-                            t0 = cmps[0][0].args[1][0]
-                            ok5 = t0 is T("binop", "Sub",
-                                          tm.sub(dfh, cand), DELTA)
-    ctx.ob("C10.5", e, ok5,
-           "meters/all-pairs: j = i+1 + argmin |path(i..k) - delta| over the "
-           "poses after i, and the tolerance is tested on that candidate"
-           if ok5 else
-           f"meters/all-pairs: candidate selection deviates: {fmt(pair)}",
-           key="C10.5:closest-candidate", pair=fmt(pair))
+                            lt = linear(cmps[0][0].args[1][0])
+                            wt = {tm.sub(sl, cand): 1, tm.sub(D, i): -1,
+                                  DELTA: -1}
+                            ok5 = lt == wt
+                            if not ok5:
+                                why5 = (f"the tolerance is tested on "
+                                        f"{fmt(cmps[0][0])[:100]}, not on "
+                                        f"the selected candidate")
+    if ok5 is None:
+        ctx.undecidable("C10.5", e, f"meters/all-pairs: candidate selection "
+                        f"{why5}: {fmt(pair)[:160]}")
+    else:
+        ctx.ob("C10.5", e, ok5,
+               "meters/all-pairs: j = i+1 + argmin |path(i..k) - delta| over "
+               "the poses after i, and the tolerance is tested on that "
+               "candidate" if ok5 else
+               f"meters/all-pairs: candidate selection deviates ({why5}): "
+               f"{fmt(pair)[:160]}",
+               key="C10.5:closest-candidate", pair=fmt(pair))
 
 
 def _by_angle(ctx, prog):
@@ -342,41 +374,53 @@ def _by_angle(ctx, prog):
         # bounds check precedes conversion
         raises = [e for e in r.of_kind("raise")
                   if "FilterException" in (e.data.get("exc_name") or "")]
-        hi = 180.0 if deg else None
         okb = False
         if raises:
-            ats = tm.atoms(raises[0].live)
-            ns = [norm_cmp(a) for a in ats]
-            lo_ok = any(n is not None and n[0] is DELTA and n[1] == "Lt" and
-                        tm.is_const(n[2]) and n[2].args[1] == 0 for n in ns)
-            if deg:
-                hi_ok = any(n is not None and n[2] is DELTA and n[1] == "Lt"
-                            and tm.is_const(n[0]) and n[0].args[1] == 180.0
-                            for n in ns)
-            else:
-                hi_ok = any(n is not None and n[2] is DELTA and n[1] == "Lt"
-                            and n[0].op == "global" and
-                            n[0].args[0] == "numpy.pi" for n in ns)
+            import math
+            top = 180.0 if deg else math.pi
             first_conv = [e for e in r.of_kind("call")
                           if e.data.get("name") == "numpy.deg2rad"]
-            # either bound alone triggers the refusal
 
-            def only(which: str):
-                def env(t):
-                    n = norm_cmp(t) if t.op == "cmp" else None
-                    if n is None:
+            def num(t, v):
+                while t.op == "named":
+                    t = t.args[1]
+                if t is DELTA:
+                    return v
+                if tm.is_const(t) and isinstance(tm.const_val(t),
+                                                 (int, float)):
+                    return float(tm.const_val(t))
+                if t.op == "global" and t.args[0] in ("numpy.pi", "math.pi"):
+                    return math.pi
+                if t.op == "unop" and t.args[0] == "USub":
+                    x = num(t.args[1], v)
+                    return None if x is None else -x
+                if t.op == "sub" and t.args[0].op in ("list", "tuple") and \
+                        tm.is_const(t.args[1]) and isinstance(
+                            tm.const_val(t.args[1]), int):
+                    try:
+                        return num(t.args[0].args[tm.const_val(t.args[1])],
+                                   v)
+                    except IndexError:
                         return None
-                    is_lo = n[0] is DELTA and n[1] == "Lt"
-                    is_hi = n[2] is DELTA and n[1] == "Lt"
-                    if is_lo:
-                        return which == "lo"
-                    if is_hi:
-                        return which == "hi"
-                    return None
+                return None
+
+            def refused(v):
+                # the refusal condition only compares delta with constants:
+                # its truth for a sample value decides a whole interval
+                def env(a):
+                    if a.op != "cmp":
+                        return None
+                    x, y = num(a.args[1], v), num(a.args[2], v)
+                    if x is None or y is None:
+                        return None
+                    return {"Lt": x < y, "LtE": x <= y, "Gt": x > y,
+                            "GtE": x >= y, "Eq": x == y,
+                            "NotEq": x != y}.get(a.args[0])
                 return tm.fold(raises[0].live, env)
-            each = only("lo") is True and only("hi") is True and \
-                only("none") is False
-            okb = lo_ok and hi_ok and each and all(
+            inside = [0.0, top / 2, top]
+            outside = [-1e-9, -1.0, top * (1 + 1e-12) + 1e-12, top + 1.0]
+            okb = all(refused(v) is False for v in inside) and \
+                all(refused(v) is True for v in outside) and all(
                 c.idx > raises[0].idx for c in first_conv)
         ctx.ob("C10.7", f, okb,
                f"[degrees={deg}] delta outside [0, "
@@ -400,7 +444,7 @@ def _by_angle(ctx, prog):
         if ok and pair.op == "tuple" and len(pair.args) == 2 and \
                 pair.args[1] is end and pair.args[0].op == "loopvar":
             sname = pair.args[0].args[0]
-            sv = r.env.get(sname)
+            sv = r.env_all.get(sname)
             if sv is not None and sv.op == "loopout":
                 sc = _ite_chain(sv.args[3])
                 start_ok = tm.is_const(sv.args[2], 0) and len(sc) == 2 and \
@@ -429,7 +473,7 @@ def _by_angle(ctx, prog):
                f"{[(fmt(a), r_, fmt(b)) for a, r_, b in cmps]}",
                key=f"C10.3:angle:consecutive")
         asum = cmps[0][2] if okc else None
-        accs = [v for k, v in r.env.items() if v.op == "loopout" and
+        accs = [v for k, v in r.env_all.items() if v.op == "loopout" and
                 v.args[1] == lid and asum is not None and any(
                     x.op == "loopvar" and x.args[0] == k
                     for x in asum.walk()) and tm.is_const(v.args[2])
@@ -449,21 +493,28 @@ def _by_angle(ctx, prog):
         # increments: consecutive relative rotation angles
         inc = asum.args[2] if asum is not None and asum.op == "binop" else \
             None
-        oki = False
+        oki = None
         if inc is not None and inc.op == "elem":
             pe = per_element(inc.args[0])
-            if pe is not None:
+            if pe is not None and is_call_to(pe[2], "builtins.zip"):
                 elt, l2, it2, c2 = pe
-                oki = is_call_to(it2, "builtins.zip") and \
-                    tuple(it2.args[1]) == (POSES, tm.sub(POSES, S1)) and \
+                oki = tuple(it2.args[1]) == (POSES, tm.sub(POSES, S1)) and \
                     not c2 and is_call_to(
                         elt, "evo.core.lie_algebra.so3_log_angle") and \
                     is_call_to(elt.args[1][0],
                                "evo.core.lie_algebra.relative_so3")
-        ctx.ob("C10.4", f, oki,
-               f"[degrees={deg}] angle/consecutive: increments are the "
-               f"angles between consecutive poses",
-               key="C10.4:angle:step")
+        if oki is None:
+            ctx.undecidable("C10.4", f, f"[degrees={deg}] angle/consecutive: "
+                            f"form of the per-step angles not recognised: "
+                            f"{fmt(inc)[:120] if inc is not None else None}")
+        else:
+            ctx.ob("C10.4", f, oki,
+                   f"[degrees={deg}] angle/consecutive: increments are the "
+                   f"angles between consecutive poses" if oki else
+                   f"[degrees={deg}] angle/consecutive: the increments are "
+                   f"not the relative rotation angles of consecutive poses "
+                   f"(pose i with pose i+1)",
+                   key="C10.4:angle:step")
 
         # ---------------- all pairs
         r = Interp(prog).run(f, {"all_pairs": const(True),
@@ -625,8 +676,13 @@ def _all_pairs_angle_search(ctx, f, r: Result, ext, masks):
     if blk_i is None or blk_j is None:
         return undecided("rotation block access not recognised")
     wrong = [b for b in (blk_i, blk_j) if isinstance(b, tuple)]
+    # the candidates are either indexed (poses[j] for j in <ids>) or the
+    # later poses themselves (for pose in poses[i+1:])
+    direct = not wrong and blk_j is T("elem", cand, l2) and \
+        cand.op == "sub" and cand.args[0] is POSES and \
+        cand.args[1].op == "slice"
     ok = not wrong and blk_i is tm.sub(POSES, first) and \
-        blk_j is tm.sub(POSES, T("elem", cand, l2))
+        (blk_j is tm.sub(POSES, T("elem", cand, l2)) or direct)
     ctx.ob("C10.8", ext, ok,
            "angle/all-pairs: the rotation blocks [:3, :3] of pose i and of "
            "each candidate pose are compared" if ok else
@@ -636,7 +692,9 @@ def _all_pairs_angle_search(ctx, f, r: Result, ext, masks):
            f"poses[j][:3, :3]", key="C10.8:blocks")
     # candidates: ids[i+1:] of ids = 0..n-1, and as many copies of R_i
     okc = None
-    if cand.op == "sub" and cand.args[1].op == "slice":
+    if direct:
+        okc = cand.args[1] is T("slice", want_off, tm.NONE, tm.NONE)
+    elif cand.op == "sub" and cand.args[1].op == "slice":
         # ids[i+1:] of ids = 0 .. n-1
         src_ids = index_source(cand.args[0])
         if src_ids is not None and src_ids[1] is not None:
